@@ -128,6 +128,9 @@ def apply_op(a, op, dtype, budget_extra=20000):
     de, I = _imports()
     kind = op[0]
     obs = dict(op=list(op), i0=len(a) - 1, t_before=float(a.t[-1]), dt_before=float(a.dt))
+    eta = kind in ("intE", "intTE")          # the same calls with the progress display switched on (it reads the time, the target and the step at every step)
+    if eta:
+        kind = kind[:-1]
     if kind in ("int", "intT", "intF", "intU"):
         if kind == "intF":
             tq = dtype(op[1]) / dtype(op[2])          # a target that is not representable in a lower precision (e.g. 1/3)
@@ -144,13 +147,14 @@ def apply_op(a, op, dtype, budget_extra=20000):
         lim = (8 * driver.min_steps(a.t[-1], target, dt_eff if dt_eff > 0 else 1.0) if kind != "intU" else 0) + budget_extra
         b = driver.Budget(lim)
         try:
-            with in_library():
+            import contextlib, io
+            with in_library(), contextlib.redirect_stderr(io.StringIO()):
                 if kind == "int":
-                    a.integrate(callback=b)
+                    a.integrate(callback=b, eta=eta)
                 elif kind in ("intF", "intU"):
                     a.integrate(tq, callback=b)
                 else:
-                    a.integrate(dtype(op[1]), callback=b)
+                    a.integrate(dtype(op[1]), callback=b, eta=eta)
             obs["raised"] = None
         except de.exception_types.FailedIntegration as e:
             obs["raised"] = "budget" if driver.budget_hit(e) else repr(e.__cause__)[:200]
